@@ -1,0 +1,7 @@
+//go:build !verif
+// +build !verif
+
+package capnp
+
+// verifYield is a no-op unless built with the "verif" tag (see verif_hooks.go).
+func verifYield(string) {}
